@@ -72,8 +72,19 @@ def work_one(job):
                 if ok:
                     res["witness"] += 1
                 else:
-                    res["witness_mismatch"].append(dict(tpl=tpl.name, vals=_jsonable(vals), sx=[(d["status"], E.concretize_output(r, d["output"] or "")[:600], d["msg"][:200]) for d in r.docs],
-                                                        native=[(d["status"], (d["output"] or "")[:600], d["msg"][:200]) for d in nr.docs]))
+                    # the rewritten build and the real build disagree on this valuation (e.g. arithmetic carried out in a
+                    # type the rewriter abstracts): the real build is what counts - if ITS output violates the property
+                    # for these values, that is a violation reproduced natively; otherwise the run stays inconclusive
+                    try:
+                        bad, nr2, docs2, err2 = E.native_check(c, tpl, vals)
+                    except Exception:
+                        bad, err2 = None, "native check failed"
+                    if bad and not err2:
+                        res["confirmed"].append(dict(tpl=tpl.name, family=tpl.family, role=tpl.role, obl=bad[0], violated=bad, vals=_jsonable(vals), docs=docs2, flags=tpl.flags,
+                                                     native=[(d["status"], d["msg"][:300], (d["output"] or "")[:3000]) for d in nr2.docs], neg="(witness replay on the unmodified build)", tdesc=tdesc))
+                    else:
+                        res["witness_mismatch"].append(dict(tpl=tpl.name, vals=_jsonable(vals), sx=[(d["status"], E.concretize_output(r, d["output"] or "")[:600], d["msg"][:200]) for d in r.docs],
+                                                            native=[(d["status"], (d["output"] or "")[:600], d["msg"][:200]) for d in nr.docs]))
         # ---- confirm counterexamples on the unmodified build
         done_roles = set()
         for f in findings:
